@@ -55,17 +55,21 @@ def _pad_newlines(old, new):
     return new + '\n' * d
 
 
-def split_top_commas(m, a, b):
-    """split masked text m[a:b] at top-level commas; returns list of (start,end)."""
+def split_top_commas(m, a, b, closure_params=False):
+    """split masked text m[a:b] at top-level commas; returns list of (start,end).
+    closure_params: commas between the two `|` of a closure parameter list (`|this: &X<_, _>| ...`) do not split."""
     parts, depth, s = [], 0, a
     i = a
+    inpipe = False
     while i < b:
         c = m[i]
         if c in '([{':
             depth += 1
         elif c in ')]}':
             depth -= 1
-        elif c == ',' and depth == 0:
+        elif c == '|' and depth == 0 and closure_params:
+            inpipe = not inpipe
+        elif c == ',' and depth == 0 and not inpipe:
             parts.append((s, i))
             s = i + 1
         i += 1
@@ -837,7 +841,7 @@ class Generator:
             for mt in re.finditer(r'\b%s\s*!\s*\(' % re.escape(macro), uf.m):
                 op = mt.end() - 1
                 cl = rsscan.match_close(uf.m, op)
-                parts = split_top_commas(uf.m, op + 1, cl)
+                parts = split_top_commas(uf.m, op + 1, cl, closure_params=True)
                 args = [re.sub(r'//[^\n]*', '', uf.src[x:y]).strip() for x, y in parts]
                 if args and args[0] == inst:
                     inv = args
